@@ -344,6 +344,83 @@ def handover_after_suspension(ck, P, R="PAIR/handover-after-suspension", arms=No
     return n
 
 
+def voluntary_leave(ck, P, R="PAIR/leave-after-handover"):
+    """Besides running out of input, an arm can leave on request: `inflate(.., Z_BLOCK / Z_TREES)` stops at block
+    boundaries and after block headers.  Such a leave writes the local `mode` back like a suspension does, so the next
+    call re-enters the arm it names.  If the arm consumed input bits before the leave, it must have named its successor
+    (`mode = Next`) first - otherwise the next call parses the following bytes as the same header again, and the outcome
+    depends on the flush mode."""
+    fn = P.fn(decoders.DISPATCH)
+    if not ck.anchor("fn " + decoders.DISPATCH, fn):
+        return
+    sws = fn.enum_switches("inflate::Mode", 20)
+    if not ck.anchor("mode switch in dispatch", len(sws) == 1):
+        return
+    sw = sws[0]
+    regions = fn.arm_regions(sw)
+    leave_blocks = {c.bb for c in fn.live_calls(r"State::inflate_leave$")}
+    drops = {c.bb for c in fn.live_calls(r"BitReader::(drop_bits|advance|init_bits)$")}
+    hand = {}
+    for i, lc in enumerate(fn.locals):
+        if lc.get("name") == "mode" and "inflate::Mode" in lc["ty"]:
+            for bi, si, rv in fn.defs.get(i, []):
+                if bi in fn.live and rv is not None and si != "call":
+                    ec = fn.enum_const(fn.rvalue_expr(rv))
+                    if ec is not None:
+                        hand.setdefault(bi, set()).add(P.variant_name(ec[0], ec[1]) if not isinstance(ec[1], str) else ec[1])
+    n = 0
+
+    def back_to_switch(x):
+        return x == sw or flow.reaches_avoiding(fn, [x], {sw})
+    for b in sorted(fn.live):
+        t = fn.blocks[b]["t"]
+        if t["k"] != "switch" or b in fn.debug_branches or b == sw:
+            continue
+        owner = [a for a, blocks in regions.items() if b in blocks]
+        if len(owner) != 1:
+            continue
+        arm = owner[0]
+        entry = [tb2 for _l, tb2 in fn.succ[sw] if tb2 in regions[arm]]
+        guarded = {}
+        for lab, tb in fn.succ[b]:
+            if lab is None or lab[0] == "const":
+                continue
+            ats = [a for a in fn.edge_atoms(b, lab, expand=True) if a[0] == "is" and a[3] and str(a[4]).endswith("InflateFlush")
+                   and isinstance(a[1], tuple) and a[1][0] == "f" and a[1][-1] == "flush"]
+            if ats and not back_to_switch(tb):
+                guarded.setdefault(tb, set()).update(*[set(a[2]) for a in ats])
+        for tb, which in sorted(guarded.items()):
+            which = "/".join(sorted(which))
+            n += 1
+            seen, bad = set(), False
+            work = [(e, False, False, False) for e in entry]
+            while work:
+                x, d, h, past = work.pop()
+                if (x, d, h, past) in seen or (not past and x not in regions[arm]):
+                    continue
+                seen.add((x, d, h, past))
+                d2 = d or x in drops
+                h2 = h or bool(hand.get(x, set()) - {arm})
+                if past and not fn.succ[x]:
+                    if d2 and not h2:
+                        bad = True
+                    continue
+                if x == b and not past:
+                    work.append((tb, d2, h2, True))
+                    for _l, y in fn.succ[x]:
+                        if y != tb:
+                            work.append((y, d2, h2, False))
+                    continue
+                for _l, y in fn.succ[x]:
+                    work.append((y, d2, h2, past))
+            ck.decide(not bad, R, "dispatch:%s:%s" % (arm, which), "bits consumed before the requested leave only after the hand-over",
+                      "arm %s of dispatch leaves on request (flush %s) after consuming input bits, with `mode` still %s: the next call re-enters "
+                      "%s from its top and parses the following input as the same header again - the outcome depends on the flush mode"
+                      % (arm, which, arm, arm), where(fn, t.get("line")))
+    ck.floor(R, n, 4)
+    return n
+
+
 def mode_total(ck, P):
     R = "MODE/total"
     adt = P.adt(Z + "inflate::Mode")
@@ -422,8 +499,11 @@ def run(ck):
     resume_atomicity(ck, P)
     n = handover_after_suspension(ck, P)
     ck.floor("PAIR/handover-after-suspension", n, 20)
+    voluntary_leave(ck, P)
     mode_total(ck, P)
     buf_error_shape(ck, P)
     from . import c08
     c08.checksum_update_guard(ck, P)
+    # what one call leaves in the window is what the next call's matches copy: every part of the output reaches it
+    c08.extend_siblings(ck, P)
     ck.assumptions += ["rustc MIR", "sibling exception table (rules/props/c04.py) confirmed by reading", "host target; K1"]
